@@ -99,10 +99,11 @@ type Stack struct {
 	Cache   physical.ToggleablePurgemonster
 
 	barrierKey []byte
+	raft       *RaftH
 }
 
 type StackOpts struct {
-	Bottom    string // simdisk | simdisk-plain | inmem | inmem-plain | file | fsm
+	Bottom    string // simdisk | simdisk-plain | inmem | inmem-plain | file | fsm | raft
 	Encoding  bool
 	CacheSize int // 0: none
 	PhysView  string
@@ -169,6 +170,14 @@ func BuildStack(s *Sim, o StackOpts) (*Stack, error) {
 		}
 		bottom = f
 		st.Close = func() { f.Close() }
+	case "raft": // the real RaftBackend, single node; needs a bubble
+		h, err := BootRaft(s)
+		if err != nil {
+			return nil, err
+		}
+		st.raft = h
+		bottom = h.B
+		st.Close = h.Close
 	default:
 		return nil, fmt.Errorf("unknown bottom %q", o.Bottom)
 	}
@@ -193,6 +202,16 @@ func BuildStack(s *Sim, o StackOpts) (*Stack, error) {
 			st.Bottom = f
 			st.Close = func() { f.Close() }
 			return layer(st, f, o)
+		}
+	case "raft":
+		st.Reopen = func() error {
+			process := s.Tape.Pick(2) == 1
+			s.Faults[map[bool]string{true: "raft-process-restart", false: "raft-cluster-restart"}[process]]++
+			if err := st.raft.Restart(process); err != nil {
+				return err
+			}
+			st.Bottom = st.raft.B
+			return layer(st, st.Bottom, o)
 		}
 	default:
 		// "restart": fresh layers (cache dropped, barrier unsealed again) over the same bottom
